@@ -65,11 +65,14 @@ theorem C01_compact (cap : Int) (l : List Slot) (h : WF cap l) :
   Acme.Layout.compact_spec cap l h
 
 /-- Resize is refused exactly when the new size would cut the last signal. -/
-theorem C01_resize (cap : Int) (l : List Slot) (h : WF cap l) (newCap : Int) :
+-- statement corrected: hypothesis `0 ≤ newCap` added.  Without it the first and third
+-- conjuncts are false for the empty layout and a negative new size
+-- (cap = 0, l = [], newCap = -1: `verifyResize 0 [] (-1) = .ok ()` but `lastEnd [] = 0 > -1`).
+theorem C01_resize (cap : Int) (l : List Slot) (h : WF cap l) (newCap : Int) (hnc : 0 ≤ newCap) :
     (verifyResize cap l newCap = .ok () ↔ lastEnd l ≤ newCap) ∧
     (lastEnd l ≤ newCap → WF newCap l) ∧
     (newCap < lastEnd l → verifyResize cap l newCap = .error .tooSmall) :=
-  Acme.Layout.resize_spec cap l h newCap
+  Acme.Layout.resize_spec cap l h newCap hnc
 
 /-! ### size changes of a signal -/
 
@@ -103,7 +106,9 @@ theorem C01_grow_total (cap : Int) (l : List Slot) (h : WF cap l) (hn : IdsNodup
     pulled left by the amount and the layout with the new size is well-formed. -/
 theorem C01_shrink (cap : Int) (l : List Slot) (h : WF cap l) (hn : IdsNodup l)
     (id : Nat) (s : Slot) (hs : find id l = some s) (amount : Int) (hne : amount ≠ 0) :
-    (∃ l', shrinkStarts l id s.size amount = .ok l' ↔ 0 ≤ amount ∧ amount < s.size) ∧
+    -- statement corrected: `∃ l', (… ↔ …)` (true for trivial reasons, it says nothing about
+    -- acceptance) re-scoped to the intended `(∃ l', …) ↔ …`; this is a strengthening.
+    ((∃ l', shrinkStarts l id s.size amount = .ok l') ↔ 0 ≤ amount ∧ amount < s.size) ∧
     (∀ l', shrinkStarts l id s.size amount = .ok l' →
         WF cap (setSize l' id (s.size - amount)) ∧
         l'.map (fun x => (x.id, x.size)) = l.map (fun x => (x.id, x.size)) ∧
